@@ -56,6 +56,119 @@ def gen_stream(rng):
     return stream, kind, len(msgs)
 
 
+def _socket_job(args):
+    """one daemon, one receiver, many sender connections; each sender writes `BEGIN\\r\\n` + Hello + signals addressed to the
+    receiver in a chosen partition (descriptors travel with the first byte of the message that announces them)"""
+    import time, socket as _socket
+    from .. import bus
+    from ..bus import method_call, signal_msg, BUS, BUS_PATH
+    seed, ncases, thorough = args
+    rng = random.Random(seed)
+    out = []
+    d = bus.Daemon()
+    try:
+        R = bus.Client(d, fd_passing=True); bus.hello(R)
+        for case in range(ncases):
+            nsig = rng.choice([3, 5, 8, 20, 40])
+            use_fd = rng.random() < 0.5
+            msgs, tokens, fdmsg = [method_call(1, BUS, BUS_PATH, BUS, "Hello").marshal()], [], None
+            for k in range(nsig):
+                tok = ("t%d-%d-%d" % (seed % 1000, case, k)).encode()
+                pay = bytes(rng.getrandbits(8) for _ in range(rng.choice([0, 3, 40, 200, 300])))
+                if use_fd and fdmsg is None and rng.random() < 0.4:
+                    m = signal_msg(k + 2, "/c11", "c.e", "S", "sayh", [tok, list(pay), 0], dest=R.unique, le=rng.random() < 0.8,
+                                   extra_fields=[(9, ('b', 'u'), 1)])
+                    fdmsg = len(msgs)
+                else:
+                    m = signal_msg(k + 2, "/c11", "c.e", "S", "say", [tok, list(pay)], dest=R.unique, le=rng.random() < 0.8)
+                msgs.append(m.marshal()); tokens.append(tok)
+            # with descriptors in play the handshake is completed first: the daemon reads the authentication phase with
+            # plain read(), which discards descriptors arriving alongside (what happens to descriptors is C15's subject)
+            pre = b"BEGIN\r\n" + msgs[0] if fdmsg is not None else b""
+            stream = (b"" if fdmsg is not None else b"BEGIN\r\n") + b"".join(msgs[1:] if fdmsg is not None else msgs)
+            if fdmsg is not None:
+                msgs = msgs[1:]; fdmsg -= 1
+            n = len(stream)
+            starts = [0 if pre else 7]
+            for b in msgs:
+                starts.append(starts[-1] + len(b))
+            kind = rng.choice(["one", "after-begin", "fd-header", "random", "blocks", "begin-plus-tail"])
+            if kind == "one": cuts = []
+            elif kind == "after-begin": cuts = [7]
+            elif kind == "fd-header" and fdmsg is not None:
+                cuts = [starts[fdmsg] + rng.randint(1, 16)] + ([starts[fdmsg]] if rng.random() < 0.5 else [])
+            elif kind == "blocks":
+                sz = rng.choice([1, 2, 7, 16, 17, 100, 2048, 2049]); lo = rng.randint(0, max(0, n - 300))
+                cuts = list(range(lo + sz, min(n, lo + 300), sz)) if sz < 100 else list(range(sz, n, sz))
+            elif kind == "begin-plus-tail": cuts = [(0 if pre else 7) + rng.randint(1, min(2041, n - 8))] if n > 9 else []
+            else: cuts = sorted(rng.sample(range(1, n), min(n - 1, rng.randint(1, 6))))
+            cuts = sorted(set(c for c in cuts if 0 < c < n))
+            pause = rng.choice([0.0, 0.004, 0.004])
+            S = bus.Client(d, fd_passing=use_fd, begin=False)
+            fdfiles = []
+            try:
+                if pre:
+                    S.send_raw(pre)
+                    if S.recv_until(lambda m: m.mtype in (2, 3) and m.get(5) == 1, 10.0) is None:
+                        raise InfraError("no answer to Hello")
+                    S.buf.clear() if hasattr(S.buf, "clear") else None
+                pos = 0
+                for c in cuts + [n]:
+                    chunk = stream[pos:c]
+                    fds = []
+                    if fdmsg is not None and pos <= starts[fdmsg] < c:
+                        f = open(os.path.join(d.dir, "c11-fd"), "w+"); fdfiles.append(f); fds = [f.fileno()]
+                    S.send_raw(chunk, fds)
+                    pos = c
+                    if pause: time.sleep(pause)
+                # the sender's stream has been processed once the bus answers it (or drops it)
+                S.send(method_call(9000, None, "/", "org.freedesktop.DBus.Peer", "Ping"))
+                got_s = S.recv_until(lambda m: m.mtype in (2, 3) and m.get(5) == 9000, 10.0)
+                dropped = got_s is None or got_s[-1] is None
+                R.send(method_call(9001 + case, None, "/", "org.freedesktop.DBus.Peer", "Ping"))
+                got_r = R.recv_until(lambda m: m.mtype in (2, 3) and m.get(5) == 9001 + case, 10.0) or []
+                seen = [m.body[0] for m in got_r if m is not None and m.mtype == 4 and m.get(3) == b"S"]
+                nfd = len(R.fds)
+                for fd in R.fds:
+                    try: os.close(fd)
+                    except OSError: pass
+                R.fds = []
+                out.append({"kind": kind, "cuts": cuts[:12], "all_cuts": cuts, "pre": pre.hex(), "fd_at": starts[fdmsg] if fdmsg is not None else None,
+                            "ncuts": len(cuts), "bytes": n, "pause": pause, "want": [t.decode() for t in tokens],
+                            "got": [t.decode() if isinstance(t, bytes) else str(t) for t in seen], "dropped": dropped,
+                            "fds_want": 1 if fdmsg is not None else 0, "fds_got": nfd, "stream": stream.hex(), "receiver": R.unique})
+            finally:
+                S.close()
+                for f in fdfiles: f.close()
+            if not d.alive():
+                out.append({"kind": "daemon-died", "stderr": d.stderr()[-1500:]}); break
+    finally:
+        d.stop()
+    return out
+
+
+def socket_suite(ctx):
+    """the same property through a real transport: whatever way `BEGIN` + messages is cut into writes (and so, with pauses, into
+    the daemon's reads), the receiver gets every message, once, in order. By chunking_irrelevant the expected outcome of every
+    partition is that of the unsplit stream, which consists of valid messages only."""
+    from concurrent.futures import ProcessPoolExecutor
+    nj, per = (12, 14) if ctx.quick() else (14, 400)
+    with ProcessPoolExecutor(nj) as ex:
+        res = [c for chunk in ex.map(_socket_job, [(ctx.seed * 7907 + j, per, not ctx.quick()) for j in range(nj)]) for c in chunk]
+    bad = [c for c in res if c.get("kind") == "daemon-died" or c["got"] != c["want"] or c["dropped"] or c["fds_got"] != c["fds_want"]]
+    kinds = {}
+    for c in res:
+        kinds[c["kind"]] = kinds.get(c["kind"], 0) + 1
+    for c in bad[:3]:
+        ctx.violate("the same byte stream, cut differently into writes, does not yield the same messages: partition kind %s, cuts %s of %s bytes: "
+                    "receiver got %d of %d messages%s" % (c.get("kind"), c.get("cuts"), c.get("bytes"), len(c.get("got", [])), len(c.get("want", [])),
+                                                            ", sender dropped" if c.get("dropped") else ""), {"kind": "socket-chunking", "case": c}, True)
+    ctx.oblige("correspondence K:transport/chunking (%d partitions of BEGIN + Hello + signals over real sockets, with and without descriptors)" % len(res),
+               "correspondence", not bad)
+    ctx.coverage["socket"] = {"cases": len(res), "partition_kinds": kinds, "with_descriptor": sum(1 for c in res if c.get("fds_want"))}
+    return len(res)
+
+
 def run(ctx):
     check.lean_obligations(ctx, MODULE, THEOREMS)
     exe = build.cc("h_wire", ["harness/lib/h_wire.c"])
@@ -108,12 +221,48 @@ def run(ctx):
         "samples": [ops[0][:200], ops[len(ops) // 2][:200]],
         "distribution": {"streams": nstreams, "kinds": kinds, "partitions": len(ops)},
         "traces_validated_against_impl": len(ops)})
-    ctx.assumptions += ["the handshake-to-message boundary (bytes after BEGIN in the same read) is exercised by the C08 harness",
-                        "descriptor arrival (SCM_RIGHTS) is not part of these streams"]
+    nsock = socket_suite(ctx)
+    ctx.coverage["evaluations"] += nsock
+    ctx.assumptions += ["at transport level the partitions are partitions of the client's writes; pauses between them make the daemon's reads "
+                        "follow them, which is likely but not forced"]
+
+
+def replay_socket(case):
+    """re-sends the recorded partition to a fresh daemon (the receiver gets the same unique name: it is the first to connect)"""
+    import time
+    from .. import bus
+    from ..bus import method_call
+    d = bus.Daemon()
+    try:
+        R = bus.Client(d, fd_passing=True); bus.hello(R)
+        if R.unique != case["receiver"]:
+            print("replay: receiver is %s, recorded %s" % (R.unique, case["receiver"])); return 1
+        S = bus.Client(d, fd_passing=case["fds_want"] > 0, begin=False)
+        if case["pre"]:
+            S.send_raw(bytes.fromhex(case["pre"])); S.recv_until(lambda m: m.mtype in (2, 3) and m.get(5) == 1, 10.0)
+        stream, pos = bytes.fromhex(case["stream"]), 0
+        for c in case["all_cuts"] + [len(stream)]:
+            fds = []
+            if case["fd_at"] is not None and pos <= case["fd_at"] < c:
+                f = open(os.path.join(d.dir, "c11-fd"), "w+"); fds = [f.fileno()]
+            S.send_raw(stream[pos:c], fds); pos = c
+            time.sleep(case["pause"])
+        S.send(method_call(9000, None, "/", "org.freedesktop.DBus.Peer", "Ping"))
+        got_s = S.recv_until(lambda m: m.mtype in (2, 3) and m.get(5) == 9000, 10.0)
+        R.send(method_call(9001, None, "/", "org.freedesktop.DBus.Peer", "Ping"))
+        got_r = R.recv_until(lambda m: m.mtype in (2, 3) and m.get(5) == 9001, 10.0) or []
+        seen = [m.body[0].decode() for m in got_r if m is not None and m.mtype == 4 and m.get(3) == b"S"]
+        dropped = got_s is None or got_s[-1] is None
+        print("replay C11: receiver got %d of %d messages, sender dropped=%s" % (len(seen), len(case["want"]), dropped))
+        return 1 if (seen != case["want"] or dropped) else 0
+    finally:
+        d.stop()
 
 
 def replay(path):
     data = json.load(open(path))
+    if data["replay"].get("kind") == "socket-chunking":
+        return replay_socket(data["replay"]["case"])
     op = data["replay"].get("op") or data["replay"].get("op_b")
     if not op:
         print("replay: no input recorded: %s" % data["what"]); return 1
